@@ -144,7 +144,10 @@ def run(cx):
         for t in body.calls("server::Worker::new"):
             if t.callee.name != "new": continue
             nspawn += 1
-            cx.check(body.path in ("server::ThreadPool::new", EXEC), "C14.R2", "varlink:%s:calls-Worker::new" % body.path, "%s %s" % (t.sp, body.path),
+            owner = body.path
+            while owner not in ("server::ThreadPool::new", EXEC) and any(x.path == owner and x.parent for x in body.unit.bodies if x.promoted is None):
+                owner = [x.parent for x in body.unit.bodies if x.promoted is None and x.path == owner][0]       # a closure inside new()/execute()
+            cx.check(owner in ("server::ThreadPool::new", EXEC), "C14.R2", "varlink:%s:calls-Worker::new" % body.path, "%s %s" % (t.sp, body.path),
                      "a worker is spawned outside ThreadPool::new/execute: the bound check in execute() does not cover it", note_ok="allowed spawner")
         if "server.rs" in body.sp:
             for t in body.calls("std::thread::spawn", "thread::Builder"):
@@ -219,7 +222,8 @@ def run(cx):
         for t in wk.calls("=unwrap", "=expect"):
             if any(k == "call" and o is L for k, o in Slice(wk, wdu).origins(t.args[0])): g.add(t.dest.l)
         g.add(L.dest.l)
-        drops = {b.idx for b in wk.blocks if not b.cleanup and b.term.kind == "drop" and b.term.place.l in g and not b.term.place.p}
+        from vlib.cfg import release_blocks
+        drops = release_blocks(wk, wdu, g)
         if not wcfg.must_pass(L.target, [jobs[0].bb], drops): held.append(L)
     cx.check(not held, "C14.R4", "varlink:worker:no-lock-across-job", "%s %s" % (jobs[0].sp, wk.path),
              "the guard acquired at %s is still alive when the job runs: every other worker blocks on that lock for the whole lifetime of the connection" % [t.sp for t in held],
